@@ -66,3 +66,76 @@ Definition ex_dispatch (k : nat) : nat * bool := match k with O => (O, false) | 
 Lemma egress_loop_example :
   poll_loop nat ex_dispatch 10 [2; 0; 3]%nat = Some ([0; 0; 0]%nat, 3%nat).
 Proof. vm_compute. reflexivity. Qed.
+
+(* ---- the loop with a shared environment, an invariant and the break on an exhausted device ---- *)
+Section Loop2Proofs.
+  Variable E St : Type.
+  Variable dispatch : E -> St -> E * St * dres.
+  Variable pre : E -> E.
+  Variable Inv : St -> Prop.
+  Variable mu : St -> nat.
+  Hypothesis inv_step : forall e s e' s' r, Inv s -> dispatch e s = (e', s', r) -> Inv s'.
+  Hypothesis mu_sent : forall e s e' s', Inv s -> dispatch e s = (e', s', RSent) -> (mu s' < mu s)%nat.
+  Hypothesis mu_else : forall e s e' s' r, Inv s -> dispatch e s = (e', s', r) -> r <> RSent ->
+                                          (mu s' <= mu s)%nat.
+
+  Definition total2 (ss : list St) : nat := fold_right (fun s a => (mu s + a)%nat) O ss.
+
+  Lemma pass2_total : forall ss e e' ss' b,
+    Forall Inv ss -> egress_pass2 E St dispatch e ss = (e', ss', b) ->
+    Forall Inv ss' /\ (total2 ss' <= total2 ss)%nat /\ (b = true -> total2 ss' < total2 ss)%nat /\
+    length ss' = length ss.
+  Proof.
+    induction ss as [|s rest IH]; intros e e' ss' b HI H; cbn [egress_pass2] in H.
+    - inversion H; subst. cbn. split; [constructor|]. split; [lia|]. split; [discriminate | reflexivity].
+    - inversion HI as [|? ? Hs Hrest]; subst.
+      destruct (dispatch e s) as ((e1, s1), r) eqn:Hd.
+      pose proof (inv_step _ _ _ _ _ Hs Hd) as Hs1.
+      destruct r.
+      + destruct (egress_pass2 E St dispatch e1 rest) as ((e2, r1), b2) eqn:Hr.
+        inversion H; subst; clear H.
+        destruct (IH _ _ _ _ Hrest Hr) as (HI' & Hle & _ & Hlen).
+        pose proof (mu_sent _ _ _ _ Hs Hd).
+        cbn [total2 fold_right length]. fold (total2 r1). fold (total2 rest).
+        split; [constructor; assumption|]. split; [lia|]. split; [intros _; lia | congruence].
+      + destruct (egress_pass2 E St dispatch e1 rest) as ((e2, r1), b2) eqn:Hr.
+        inversion H; subst; clear H.
+        destruct (IH _ _ _ _ Hrest Hr) as (HI' & Hle & Hlt & Hlen).
+        pose proof (mu_else _ _ _ _ _ Hs Hd ltac:(discriminate)).
+        cbn [total2 fold_right length]. fold (total2 r1). fold (total2 rest).
+        split; [constructor; assumption|]. split; [lia|].
+        split; [intros Hb; specialize (Hlt Hb); lia | congruence].
+      + inversion H; subst; clear H.
+        pose proof (mu_else _ _ _ _ _ Hs Hd ltac:(discriminate)).
+        cbn [total2 fold_right length]. fold (total2 rest).
+        split; [constructor; assumption|]. split; [lia|]. split; [discriminate | reflexivity].
+  Qed.
+
+  Lemma poll_loop2_returns : forall fuel e ss,
+    Forall Inv ss -> (total2 ss < fuel)%nat ->
+    exists e' r n, poll_loop2 E St dispatch pre fuel e ss = Some (e', r, n) /\
+                   (n + total2 r <= total2 ss)%nat /\ length r = length ss /\ Forall Inv r.
+  Proof.
+    induction fuel as [|f IH]; intros e ss HI Hf; [lia|].
+    cbn [poll_loop2].
+    destruct (egress_pass2 E St dispatch (pre e) ss) as ((e1, ss'), b) eqn:Hp.
+    destruct (pass2_total _ _ _ _ _ HI Hp) as (HI' & Hle & Hlt & Hlen).
+    destruct b.
+    - specialize (Hlt eq_refl).
+      destruct (IH e1 ss' HI' ltac:(lia)) as (e2 & r & n & Hr & Hn & Hl & HIr).
+      rewrite Hr. exists e2, r, (S n). split; [reflexivity|]. split; [lia|]. split; [congruence | exact HIr].
+    - exists e1, ss', O. split; [reflexivity|]. split; [lia|]. split; [exact Hlen | exact HI'].
+  Qed.
+End Loop2Proofs.
+
+(* non-vacuity for the second loop: environment = device transmit budget (refilled by nothing, one
+   token eaten by the interface itself before each pass); components emit 2, 0 and 3 packets *)
+Definition ex_dispatch2 (budget : nat) (k : nat) : nat * nat * dres :=
+  match k with
+  | O => (budget, O, RSilent)
+  | S k' => match budget with O => (O, k, RExhausted) | S b' => (b', k', RSent) end
+  end.
+Lemma egress_loop2_example :
+  poll_loop2 nat nat ex_dispatch2 Nat.pred 10 4%nat [2; 0; 3]%nat = Some (0%nat, [1; 0; 2]%nat, 1%nat) /\
+  poll_loop2 nat nat ex_dispatch2 Nat.pred 10 20%nat [2; 0; 3]%nat = Some (11%nat, [0; 0; 0]%nat, 3%nat).
+Proof. vm_compute. split; reflexivity. Qed.
